@@ -166,8 +166,12 @@ class Photon:
 
         if self._array is not None:
             self._array += other
+        elif isinstance(other, xr.DataArray):
+            # Use the property to validate (and copy) the new 3D array
+            self.array_3d = other
         else:
-            self._array = other
+            # Use the property to validate (and copy) the new 2D array
+            self.array = other
         return self
 
     def __add__(self, other: Union[np.ndarray, "xr.DataArray"]) -> Self:
@@ -182,8 +186,12 @@ class Photon:
 
         if self._array is not None:
             self._array += other
+        elif isinstance(other, xr.DataArray):
+            # Use the property to validate (and copy) the new 3D array
+            self.array_3d = other
         else:
-            self._array = other
+            # Use the property to validate (and copy) the new 2D array
+            self.array = other
         return self
 
     def _get_uninitialized_2d_error_message(self) -> str:
